@@ -117,6 +117,20 @@ def parse_sanitizer(stderr, repo=os.environ.get("VERIF_REPO", "/repo")):
     func = func or first or "unknown"
     text = "\n".join(lines[start:start + 40])
     k = kind + (":" + access if access else "") + ":" + func
+    if "use-after-free" in kind:
+        # where was it freed?  (innermost libqb function of the 'freed by' stack)
+        fr = None
+        for i, l in enumerate(lines[start:start + 80]):
+            if l.startswith("freed by"):
+                for l2 in lines[start + i + 1:start + i + 12]:
+                    m = _FRAME.match(l2)
+                    if not m:
+                        break
+                    if (repo + "/lib/") in m.group(3) or (repo + "/include/") in m.group(3):
+                        fr = m.group(2)
+                        break
+                break
+        k += ":freed-in:" + (fr or "unknown")
     return k, func, text
 
 
